@@ -196,6 +196,164 @@ Definition spec_ok (cfg_cpus cpus : Z) (timeout : option Z) (tasks : list (res Z
              end
   end.
 
+(* ================================================================================================
+   antismash/common/record_processing.py: pre_process_sequences, the caller of parallel_function
+   through which secmet Records cross the process boundary (sanitise_sequence, ensure_cds_info).
+
+   A record is abstracted to what pre-processing reads and writes: id (a number standing for the id
+   string), record_index, the sequence (character codes), the skip flag (0 = None, otherwise a reason
+   code), the number of CDS features, and `rest` (a digest standing for everything else: name,
+   description, annotations, features).  What is antiSMASH's here - and transcribed - is: WHICH records
+   go to the workers, WHAT replaces the caller's list afterwards (the list returned by
+   parallel_function, whole records: `sequences = parallel_function(...)`), the single-record bypass,
+   the filters between the two parallel stages, and the final "all records skipped" error.
+   Not transcribed (guard of the correspondence, see harness): the id/name rewriting block
+   (generate_unique_id, fix_record_name_id: the identity for unique ids/names of at most 16 characters
+   without a long accession), records with an undefined sequence (WGS/supercontig master records),
+   non-ASCII sequence characters.  The gene finder is a parameter gf : prec -> res prec. *)
+Record prec : Type := mkR {
+  r_id : Z; r_index : Z; r_seq : list Z; r_skip : Z; r_ncds : Z; r_rest : Z }.
+
+Definition E_Other := 99.          (* AntismashInputError (no entry of its own in the exception enum) *)
+Definition S_NoSeq := 1.           (* "contains no sequence" *)
+Definition S_Filter := 2.          (* "did not match filter: ..." *)
+Definition S_MinLen := 3.          (* "smaller than minimum length (...)" *)
+Definition S_Limit := 4.           (* "skipping all but largest ... meaningful records (--limit) " *)
+Definition S_NoGenes := 5.         (* "No genes found" *)
+
+Definition set_skip (s : Z) (r : prec) : prec := mkR (r_id r) (r_index r) (r_seq r) s (r_ncds r) (r_rest r).
+Definition set_index (i : Z) (r : prec) : prec := mkR (r_id r) i (r_seq r) (r_skip r) (r_ncds r) (r_rest r).
+Definition skipped (r : prec) : bool := negb (r_skip r =? 0).     (* `if record.skip` *)
+
+(* sanitise_sequence: upper(), "-" dropped, A C G T kept (real content), anything else -> N;
+   no real content -> skip = "contains no sequence"; returns the same instance *)
+Definition upper (c : Z) : Z := if (97 <=? c) && (c <=? 122) then c - 32 else c.
+Definition is_acgt (c : Z) : bool := (c =? 65) || (c =? 67) || (c =? 71) || (c =? 84).
+Fixpoint sanitise_chars (s : list Z) : list Z * bool :=
+  match s with
+  | [] => ([], false)
+  | c :: rest =>
+    let (out, real) := sanitise_chars rest in
+    let u := upper c in
+    if u =? 45 then (out, real)
+    else if is_acgt u then (u :: out, true)
+    else (78 :: out, real)
+  end.
+Definition sanitise_sequence (r : prec) : res prec :=
+  let (s, real) := sanitise_chars (r_seq r) in
+  Ok (mkR (r_id r) (r_index r) s (if real then r_skip r else S_NoSeq) (r_ncds r) (r_rest r)).
+
+(* ensure_cds_info(genefinding, sequence, **kwargs): a skipped record is returned untouched; a record
+   without CDS features gets gene finding (unless a GFF3 file is used or the tool is "none";
+   ValueError -> AntismashInputError, other exceptions propagate); still none -> skip = "No genes found" *)
+Definition ensure_cds_info (gf : prec -> res prec) (run_gf : bool) (r : prec) : res prec :=
+  if skipped r then Ok r
+  else if r_ncds r =? 0 then
+    do r' <- (if run_gf
+              then match gf r with Ok x => Ok x | Err e => Err (if e =? E_Value then E_Other else e) end
+              else Ok r);
+    if r_ncds r' =? 0 then Ok (set_skip S_NoGenes r') else Ok r'
+  else Ok r.
+
+(* for i, seq in enumerate(sequences): seq.record_index = i + 1 *)
+Fixpoint set_indices (i : Z) (l : list prec) : list prec :=
+  match l with [] => [] | r :: rest => set_index i r :: set_indices (i + 1) rest end.
+
+(* filter_records_by_name: target "" -> nothing; otherwise every other id is skipped, no match -> error *)
+Definition filter_by_name (target : option Z) (l : list prec) : res (list prec) :=
+  match target with
+  | None => Ok l
+  | Some t =>
+    if existsb (fun r => r_id r =? t) l
+    then Ok (map (fun r => if r_id r =? t then r else set_skip S_Filter r) l)
+    else Err E_Other
+  end.
+
+Definition apply_minlength (minlength : Z) (l : list prec) : list prec :=
+  map (fun r => if zlen (r_seq r) <? minlength then set_skip S_MinLen r else r) l.
+
+(* filter_records_by_count: sorted(enumerate(records), key=(-len, position)); already skipped records do
+   not count; every further one after `maximum` meaningful ones is skipped.  Returns limit_hit. *)
+Definition longer_first (a b : nat * prec) : bool :=
+  let la := zlen (r_seq (snd a)) in let lb := zlen (r_seq (snd b)) in
+  (lb <? la) || ((la =? lb) && (Nat.ltb (fst a) (fst b))).
+Fixpoint count_scan (maximum meaningful : Z) (order : list (nat * prec)) : list nat :=
+  match order with
+  | [] => []
+  | (i, r) :: rest =>
+    if skipped r then count_scan maximum meaningful rest
+    else let m := meaningful + 1 in
+         if maximum <? m then i :: count_scan maximum m rest else count_scan maximum m rest
+  end.
+Fixpoint mark_skipped (hit : list nat) (i : nat) (l : list prec) : list prec :=
+  match l with
+  | [] => []
+  | r :: rest => (if existsb (Nat.eqb i) hit then set_skip S_Limit r else r) :: mark_skipped hit (S i) rest
+  end.
+Definition filter_by_count (maximum : Z) (l : list prec) : bool * list prec :=
+  if (maximum =? -1) || (zlen l <? maximum) then (false, l)
+  else let hit := count_scan maximum 0 (sort_by longer_first (combine (seq 0 (length l)) l)) in
+       (match hit with [] => false | _ => true end, mark_skipped hit 0 l).
+
+Record popts : Type := mkO {
+  o_checking : bool;          (* not (options.reuse_results or options.skip_sanitisation) *)
+  o_target : option Z;        (* options.limit_to_record ("" = None) as an id number *)
+  o_minlength : Z;
+  o_limit : Z;
+  o_run_gf : bool }.          (* not genefinding_gff3 and genefinding_tool != "none" *)
+
+(* the two uses of the parallel helper.  Stage 1: `if len(sequences) == 1: sequences = [sanitise_sequence(sequences[0])]
+   else: sequences = parallel_function(sanitise_sequence, ([record] for record in sequences))` - the list returned by the
+   helper (the workers' copies, whole records) replaces the caller's list.  Stage 2:
+   `sequences = parallel_function(partial(ensure_cds_info, genefinding.run_on_record, ...), ...)`, likewise.
+   Both only when checking is required. *)
+Definition pp_stage1 (pf : (prec -> res prec) -> list prec -> res (list prec)) (o : popts) (s0 : list prec)
+  : res (list prec) :=
+  if o_checking o then
+    match s0 with
+    | [r] => do r' <- sanitise_sequence r; Ok [r']
+    | _ => pf sanitise_sequence s0
+    end
+  else Ok s0.
+Definition pp_stage2 (pf : (prec -> res prec) -> list prec -> res (list prec)) (gf : prec -> res prec) (o : popts)
+           (s4 : list prec) : res (list prec) :=
+  if o_checking o then pf (ensure_cds_info gf (o_run_gf o)) s4 else Ok s4.
+
+(* pre_process_sequences over the helper used for stage 1 (pf1) and stage 2 (pf2); returns (triggered_limit, records) *)
+Definition pre_process_gen (pf1 pf2 : (prec -> res prec) -> list prec -> res (list prec))
+           (gf : prec -> res prec) (o : popts) (recs : list prec) : res (bool * list prec) :=
+  (* records_contain_shotgun_scaffolds: record.seq[0] raises IndexError for an empty sequence *)
+  if existsb (fun r => match r_seq r with [] => true | _ => false end) recs then Err E_Other else
+  do s1 <- pp_stage1 pf1 o (set_indices 1 recs);
+  do s2 <- filter_by_name (o_target o) s1;
+  let s3 := apply_minlength (o_minlength o) s2 in
+  let (hit, s4) := filter_by_count (o_limit o) s3 in
+  do s5 <- pp_stage2 pf2 gf o s4;
+  if forallb skipped s5 then Err E_Other else Ok (hit, s5).       (* "all records skipped" *)
+
+(* both calls pass neither cpus nor timeout: the worker count is the configuration's *)
+Definition pre_process (gf : prec -> res prec) (o : popts) (cfg_cpus : Z) (sched1 sched2 : list event)
+           (recs : list prec) : res (bool * list prec) :=
+  pre_process_gen (fun f => parallel_function f cfg_cpus 0 None sched1)
+                  (fun f => parallel_function f cfg_cpus 0 None sched2) gf o recs.
+
+(* the in-process run (what the property compares with): every call made one after another *)
+Definition pre_process_inproc (gf : prec -> res prec) (o : popts) (recs : list prec) : res (bool * list prec) :=
+  pre_process_gen sequential sequential gf o recs.
+
+Definition prec_eqb (a b : prec) : bool :=
+  (r_id a =? r_id b) && (r_index a =? r_index b) && list_eqb Z.eqb (r_seq a) (r_seq b) &&
+  (r_skip a =? r_skip b) && (r_ncds a =? r_ncds b) && (r_rest a =? r_rest b).
+
+(* decidable specification on the implementation's output: exactly the in-process result; an error only
+   where the in-process run raises as well *)
+Definition pp_spec_ok (gf : prec -> res prec) (o : popts) (recs : list prec) (out : res (bool * list prec)) : bool :=
+  match out, pre_process_inproc gf o recs with
+  | Ok (h, l), Ok (h', l') => Bool.eqb h h' && list_eqb prec_eqb l l'
+  | Err _, Err _ => true
+  | _, _ => false
+  end.
+
 (* ---------- encoding ---------- *)
 (* a task travels as its sequential outcome: 0 v (returns v) | 1 kind (raises) *)
 Definition dTask : dec (res Z) := fun l =>
@@ -220,6 +378,54 @@ Definition dResList : dec (res (list Z)) := fun l =>
   end.
 Definition eVals (vs : list Z) : list Z := eList (fun v => [v]) vs.
 
+(* pre_process_sequences: a record travels as id skip ncds rest seq; the gene finder as a table
+   id -> outcome on that record (0 ncds rest | 1 kind), the identity for ids not in the table *)
+Definition dRec : dec prec := fun l =>
+  match dPair (dPair (dPair (dPair dZ dZ) dZ) dZ) (dList dZ) l with
+  | Some ((i, s, n, x, sq), r) => Some (mkR i 0 sq s n x, r)
+  | None => None
+  end.
+Definition dGf : dec (Z * res (Z * Z)) := fun l =>
+  match l with
+  | i :: 0 :: n :: x :: r => Some ((i, Ok (n, x)), r)
+  | i :: 1 :: k :: r => Some ((i, Err k), r)
+  | _ => None
+  end.
+Fixpoint gf_of_table (t : list (Z * res (Z * Z))) (r : prec) : res prec :=
+  match t with
+  | [] => Ok r
+  | (i, o) :: t' =>
+    if i =? r_id r then
+      match o with
+      | Ok (n, x) => Ok (mkR (r_id r) (r_index r) (r_seq r) (r_skip r) n x)
+      | Err k => Err k
+      end
+    else gf_of_table t' r
+  end.
+Definition dOpts : dec popts := fun l =>
+  match dPair (dPair (dPair (dPair dBool (dOpt dZ)) dZ) dZ) dBool l with
+  | Some ((c, t, m, lim, g), r) => Some (mkO c t m lim g, r)
+  | None => None
+  end.
+Definition eRec (r : prec) : list Z :=
+  [r_id r; r_index r; r_skip r; r_ncds r; r_rest r] ++ eList (fun c => [c]) (r_seq r).
+Definition ePP (x : bool * list prec) : list Z := eBool (fst x) ++ eList eRec (snd x).
+Definition dRecOut : dec prec := fun l =>
+  match l with
+  | i :: ix :: s :: n :: x :: r =>
+    match dList dZ r with Some (sq, r') => Some (mkR i ix sq s n x, r') | None => None end
+  | _ => None
+  end.
+Definition dPPOut : dec (res (bool * list prec)) := fun l =>
+  match l with
+  | 0 :: r => match dPair dBool (dList dRecOut) r with Some (x, r') => Some (Ok x, r') | None => None end
+  | 1 :: k :: r => Some (Err k, r)
+  | _ => None
+  end.
+(* payload: cfg_cpus options records gene-finder-table schedule1 schedule2 *)
+Definition dPPCase : dec (Z * popts * list prec * list (Z * res (Z * Z)) * list event * list event) :=
+  dPair (dPair (dPair (dPair (dPair dZ dOpts) (dList dRec)) (dList dGf)) (dList dEvent)) (dList dEvent).
+
 (* payload: cfg_cpus cpus timeout(option) tasks(list) schedule(list) *)
 Definition dCase : dec (Z * Z * option Z * list (res Z) * list event) :=
   dPair (dPair (dPair (dPair dZ dZ) (dOpt dZ)) (dList dTask)) (dList dEvent).
@@ -237,6 +443,12 @@ Definition run_C18 (fn : Z) (l : list Z) : list Z :=
   | 11 | 12 => (* specification on the implementation's output (appended to the payload) *)
          match dPair dCase dResList l with
          | Some ((cfg, cpus, timeout, tasks, _, out), []) => eBool (spec_ok cfg cpus timeout tasks out)
+         | _ => bad_input end
+  | 3 => match dPPCase l with
+         | Some ((cfg, o, recs, tbl, s1, s2), []) => eRes ePP (pre_process (gf_of_table tbl) o cfg s1 s2 recs)
+         | _ => bad_input end
+  | 13 => match dPair dPPCase dPPOut l with
+         | Some ((cfg, o, recs, tbl, _, _, out), []) => eBool (pp_spec_ok (gf_of_table tbl) o recs out)
          | _ => bad_input end
   | _ => bad_input
   end.
